@@ -109,7 +109,7 @@ int main(void) {
         if (!strcmp(op, "printd")) { char s[64]; snprintf(s, sizeof s, "%" PRId64, (int64_t)strtoll(a1, NULL, 10)); printf("printd "); puthex(stdout, s, strlen(s)); printf("\n"); continue; }
         if (dead) { printf("DEAD\n"); continue; }
         if (QV_TRY(10)) {
-            errno = 0;
+            errno = ENOMEM;      /* a stale value from an earlier, unrelated call: must not influence the operation */
             if (!strcmp(op, "put")) {
                 size_t nk = unhex(a1, b1), nv = unhex(a2, b2);
                 char *k = dupstr(b1, nk); void *v = dupbuf(b2, nv);
@@ -173,7 +173,7 @@ int main(void) {
                 if (op[4]) { rkn = unhex(a2, b2); rk = dupstr(b2, rkn); }
                 static char buf[1 << 22]; size_t bl = 0; buf[0] = 0;
                 for (int i = 0; i < n; i++) {
-                    errno = 0;
+                    errno = ENOMEM;
                     if (!qhashtbl_getnext(t, &o, true)) {
                         ended = errno == ENOENT ? 1 : 2;
                         /* the end is stable: asking again reports the end again and leaves the object alone */
